@@ -135,10 +135,15 @@ def main(argv=None):
     prop = args.prop.upper()
     mod = importlib.import_module(f"checks.{prop.lower()}")
     if args.replay:
+        if hasattr(mod, "custom_replay"):
+            return mod.custom_replay(args.replay)
         return do_replay(mod, args.replay)
     tier = common.tier_from_env(args.tier)
     seed = common.seed_from_env()
     budget = args.budget or float(os.environ.get("VERIF_BUDGET_S", 0)) or mod.budget(tier)
+    if hasattr(mod, "custom_main"):
+        print(f"[{prop}] tier={tier} VERIF_SEED={seed} repo={common.REPO}", flush=True)
+        return mod.custom_main(args, tier, seed, budget)
     known = common.load_known()
     t0 = time.time()
     print(f"[{prop}] tier={tier} VERIF_SEED={seed} budget={budget:.0f}s repo={common.REPO}", flush=True)
